@@ -747,3 +747,184 @@ func (a *algo) translateRender(key string) {
 		" : Option (" + strings.Join(rt, " × ") + ") :=\n  let recNull := rec.null;\n" + indent(body) + "\n"
 	a.order = append(a.order, key)
 }
+
+// ---------------------------------------------------------------- token.render (continuation-passing: no loops)
+
+// token.render is a switch over the token type and, for literals, a type switch over the dynamic
+// content, formatting through fmt verbs.  The receiver is (typ, content) with `content : Go.Dyn`
+// (a string, a literal value, or nil); `%#v`, `%T`, `%s`, strconv.QuoteRune on it are the
+// primitives Go.sharpV / Go.typeName / Go.dynStr / Go.quoteRuneDyn; `panic(…)` (unsupported literal
+// type) is `none`.  Every `if`/`switch` duplicates the rest of the function into its branches.
+const tDyn aty = 300
+
+func (a *algo) cblock(list []ast.Stmt, env aenv) string {
+	if len(list) == 0 {
+		bail("control reaches the end of token.render")
+	}
+	s, rest := list[0], list[1:]
+	w := lv(a.writer[a.cur])
+	switch x := s.(type) {
+	case *ast.ReturnStmt:
+		if len(x.Results) == 1 && nodeStr(x.Results[0]) == "nil" {
+			return "(some (" + w + ", f))"
+		}
+		return "none"
+	case *ast.ExprStmt:
+		if c, ok := x.X.(*ast.CallExpr); ok && nodeStr(c.Fun) == "panic" {
+			return "none"
+		}
+		bail("expression statement %s", nodeStr(x))
+	case *ast.DeclStmt:
+		gd, ok := x.Decl.(*ast.GenDecl)
+		if !ok || gd.Tok != token.VAR {
+			bail("declaration %s", nodeStr(x))
+		}
+		e2 := env.copy()
+		out := ""
+		for _, sp := range gd.Specs {
+			vs := sp.(*ast.ValueSpec)
+			if len(vs.Values) != 0 || vs.Type == nil || goType(vs.Type) != tStr {
+				bail("declaration %s", nodeStr(x))
+			}
+			for _, n := range vs.Names {
+				e2[n.Name] = tStr
+				out += fmt.Sprintf("let %s : Str := [];\n", lv(n.Name))
+			}
+		}
+		return out + a.cblock(rest, e2)
+	case *ast.AssignStmt:
+		if len(x.Lhs) == 1 && len(x.Rhs) == 1 {
+			l := nodeStr(x.Lhs[0])
+			// alias := f.register(path)
+			if c, ok := x.Rhs[0].(*ast.CallExpr); ok && squeeze(c.Fun) == "f.register" && len(c.Args) == 1 && x.Tok == token.DEFINE {
+				v, t := a.expr(c.Args[0], env)
+				if t != tStr {
+					bail("register of a non-string")
+				}
+				e2 := env.copy()
+				e2[l] = tStr
+				tmp := a.tmp()
+				return fmt.Sprintf("let %s := (rec.register f %s);\nlet %s : Str := %s.1;\nlet f : FileS := %s.2;\n", tmp, v, lv(l), tmp, tmp) + a.cblock(rest, e2)
+			}
+			v, t := a.expr(x.Rhs[0], env)
+			e2 := env.copy()
+			switch x.Tok {
+			case token.DEFINE:
+				e2[l] = t
+				return fmt.Sprintf("let %s : %s := %s;\n", lv(l), leanTy[t], v) + a.cblock(rest, e2)
+			case token.ASSIGN:
+				if env[l] != t {
+					bail("assignment %s", nodeStr(x))
+				}
+				return fmt.Sprintf("let %s : %s := %s;\n", lv(l), leanTy[t], v) + a.cblock(rest, env)
+			case token.ADD_ASSIGN:
+				if env[l] != tStr || t != tStr {
+					bail("assignment %s", nodeStr(x))
+				}
+				return fmt.Sprintf("let %s : Str := %s ++ %s;\n", lv(l), lv(l), v) + a.cblock(rest, env)
+			}
+		}
+		bail("assignment %s", nodeStr(x))
+	case *ast.IfStmt:
+		if c, ok := errGuard(x); ok {
+			if line, ok := a.writeCall(c, env); ok {
+				return line + a.cblock(rest, env)
+			}
+			bail("guarded call %s", nodeStr(c))
+		}
+		if x.Init != nil {
+			bail("if-initialiser %s", nodeStr(x.Init))
+		}
+		c, ct := a.expr(x.Cond, env)
+		if ct != tBool {
+			bail("condition %s", nodeStr(x.Cond))
+		}
+		th := a.cblock(append(append([]ast.Stmt{}, x.Body.List...), rest...), env.copy())
+		el := a.cblock(append(append([]ast.Stmt{}, elseList(x)...), rest...), env.copy())
+		return "if " + c + " then (\n" + th + ")\nelse (\n" + el + ")"
+	case *ast.SwitchStmt:
+		// switch t.typ { case A, B: … }
+		if x.Init != nil || x.Tag == nil {
+			bail("switch %s", squeeze(x.Tag))
+		}
+		tag, tt := a.expr(x.Tag, env)
+		if tt != tTokTyp {
+			bail("switch over %s", nodeStr(x.Tag))
+		}
+		out, closers := "", ""
+		var def []ast.Stmt
+		for _, cs := range x.Body.List {
+			cc := cs.(*ast.CaseClause)
+			if cc.List == nil {
+				def = cc.Body
+				continue
+			}
+			var conds []string
+			for _, e := range cc.List {
+				v, t := a.expr(e, env)
+				if t != tTokTyp {
+					bail("case %s", nodeStr(e))
+				}
+				conds = append(conds, "("+tag+" == "+v+")")
+			}
+			out += "if (" + strings.Join(conds, " || ") + ") then (\n" + a.cblock(append(append([]ast.Stmt{}, cc.Body...), rest...), env.copy()) + ")\nelse (\n"
+			closers += ")"
+		}
+		return out + a.cblock(append(append([]ast.Stmt{}, def...), rest...), env.copy()) + closers
+	case *ast.TypeSwitchStmt:
+		// switch t.content.(type) { case bool, string: … default: panic }
+		es, ok := x.Assign.(*ast.ExprStmt)
+		if !ok || x.Init != nil {
+			bail("type switch %s", squeeze(x.Assign))
+		}
+		ta, ok := es.X.(*ast.TypeAssertExpr)
+		if !ok || ta.Type != nil {
+			bail("type switch %s", squeeze(x.Assign))
+		}
+		v, vt := a.expr(ta.X, env)
+		if vt != tDyn {
+			bail("type switch over %s", nodeStr(ta.X))
+		}
+		out, closers := "", ""
+		var def []ast.Stmt
+		hasDef := false
+		for _, cs := range x.Body.List {
+			cc := cs.(*ast.CaseClause)
+			if cc.List == nil {
+				def, hasDef = cc.Body, true
+				continue
+			}
+			var names []string
+			for _, e := range cc.List {
+				names = append(names, fmt.Sprintf("%q", squeeze(e)))
+			}
+			out += "if (Go.dynIs " + v + " [" + strings.Join(names, ", ") + "]) then (\n" + a.cblock(append(append([]ast.Stmt{}, cc.Body...), rest...), env.copy()) + ")\nelse (\n"
+			closers += ")"
+		}
+		if !hasDef {
+			def = nil
+		}
+		return out + a.cblock(append(append([]ast.Stmt{}, def...), rest...), env.copy()) + closers
+	}
+	bail("statement %s", nodeStr(s))
+	return ""
+}
+
+func (a *algo) translateTokenRender(key string) {
+	d := a.fns[key]
+	env := aenv{}
+	rn := d.Recv.List[0].Names[0].Name
+	env[rn] = tToken
+	a.tokDyn[rn] = true
+	a.writer[key] = writerParam(d)
+	if a.writer[key] == "" {
+		bail("no writer parameter")
+	}
+	env["f"] = tFile
+	env[a.writer[key]] = tWriter
+	body := a.cblock(d.Body.List, env)
+	pos := fset.Position(d.Pos()).String()
+	a.out[key] = "/-- translated from `" + key + "` (" + pos[strings.LastIndex(pos, "/jen/")+1:] + ") -/\ndef " + leanName(key) + " (cfg : Cfg) (rec : Go.Rec) (" + lv(rn) + "_typ : Go.TokTyp) (" + lv(rn) + "_val : Go.Dyn) (f : FileS) (" + lv(a.writer[key]) + " : Str) : Option (Str × FileS) :=\n" + indent(body) + "\n"
+	a.order = append(a.order, key)
+	delete(a.tokDyn, rn)
+}
